@@ -484,8 +484,9 @@ pub fn derive_session_key(
         // The last byte should contain the padding symbol, which is also the padding length
         let pad = decrypted_key_padded.last().expect("is not empty");
 
-        // Padding length seems to exceed size of the padded message
-        if *pad as usize > len {
+        // There is always at least one octet of padding,
+        // and the padding length must not exceed the size of the padded message
+        if *pad == 0 || *pad as usize > len {
             return Err(Error::UnpadError);
         }
 
